@@ -20,6 +20,7 @@ RULE = ("generated topologies: 3-6 atom types (optionally OPLS bond types with _
 ASSUMPTIONS = ["which formula belongs to which comb-rule number is not asserted",
                "ties between equally specific wildcard entries may resolve to either entry",
                "OSError is the documented 'no matching bonded type' channel"]
+RULE += (' One [ nonbond_params ] table in four repeats a pair further down (either order of the types): the later line counts, as in grompp.')
 BUDGET = {"quick": (16, 400), "thorough": (16, 8000)}
 EXHAUSTIVE = False
 
